@@ -5,6 +5,10 @@ ROOT = os.path.dirname(os.path.dirname(os.path.abspath(__file__)))
 sys.path.insert(0, os.path.join(ROOT, 'lib'))
 from props import PROPS, ENGINES
 from manifest_text import TEXT, NOT_APPLICABLE, HOOK_COMMITS
+try:
+    HOOK_COMMITS = subprocess.check_output(['git', '-C', '/repo', 'log', '--grep', '^verif hooks', '--format=%h'], text=True).split()[::-1] or HOOK_COMMITS
+except Exception:
+    pass
 
 all_ids = [json.loads(l)['id'] for l in open(os.path.join(ROOT, 'properties.jsonl'))]
 checks = []
